@@ -13,13 +13,32 @@
 //                      <nreps> (level colour <n> seed* <n> started* <n> ran* <n> sep*)*
 //   per repetition: level/colour of the first output when it starts, srand arguments since the previous one, ids passed to
 //   currentTestStarted, ids whose body ran, started ids on which setRunInSeperateProcess had been called (nothing is forked).
+//
+// Second scenario kind -- SEQUENCES of vectors handed to the static entry point CommandLineTestRunner::RunAllTests(ac, av) (the function
+// behind RUN_ALL_TESTS / CPPUTEST_DEFAULT_MAIN) in ONE process on the current registry:
+//   :seq <time ms> <np> (<name id> <kind>)*np <fail mask> <k> (<n> <arg bytes>*n)*k  [(<nopts> <opt>*)*k annotations, ignored here]
+//   user plugins installed beforehand, head of the chain first; name id 0 MemoryLeakPlugin 1 SetPointerPlugin 2 ok 3 other 4 px;
+//   kind 0 takes no argument, 1 takes -pok..., 2 takes -px...;  fail mask: bit i = probe test i fails (FAIL in its body).
+// Observation: :seq (<call>)* :end | ... :hang | ... :died
+//   <call> ::= :c <printed 0 neither usage nor help|1 exactly usage|2 exactly help|3 usage/help and more> <srand calls> <n> ran* <m> tag*
+//            | :big                     (repeat count above REP_CAP: the vector is not handed to the runner)
+//   ran = ids of the probe tests whose body ran, in order, all repetitions; tag = the plugin chain of the current registry AFTER the call,
+//   head first: the user plugin's position + 1, or 0 for any plugin that is not one of the user's (walk capped at 40: a cycle shows).
+// The sequence runs in a forked child under a CPU-time limit (ITIMER_PROF, 0.4 s) and alarm(SEQ_ALARM): a call that does not come back gives
+// ":hang" after the calls completed so far;
+// a child killed otherwise (sanitizer report, SEGV on a dangling plugin) gives ":died".
 #include <stdexcept>
+#include <unistd.h>
+#include <csignal>
+#include <sys/wait.h>
+#include <sys/time.h>
 #include "hlib.h"
 static char* exactCopy(const std::string& s) { char* p = (char*)malloc(s.size() + 1); memcpy(p, s.data(), s.size()); p[s.size()] = 0; return p; }
 static const char** exactArray(size_t n) { return (const char**)malloc(n * sizeof(char*)); }
 static void release(void* p) { free(p); }
 #define private public
 #include "CppUTest/TestFilter.h"
+#include "CppUTest/TestPlugin.h"      // next_ is read directly when the chain is walked after a call: no virtual call on a plugin that may be gone
 #undef private
 #include "CppUTest/TestHarness.h"
 #include "CppUTest/TestRegistry.h"
@@ -161,6 +180,165 @@ static void runThroughRunner(Out& o, int ac, const char* const* av)
     }
 }
 
+// ---------------------------------------------------------------- sequences through the static RunAllTests (forked child)
+static const int SEQ_ALARM = 20, MAXRAN = 4096, CHAIN_CAP = 40;      // wall-clock seconds: for a child that sleeps for ever
+static int gHangs;                                                     // children that ran out of CPU time so far (parent side)
+static char gCon[1 << 16]; static size_t gConLen;
+static int gRanIds[MAXRAN]; static int gRanN; static unsigned gFailMask; static int gSrandCalls;
+static void (*gSeqRealSrand)(unsigned int);
+static void countingSrand(unsigned int s) { gSrandCalls++; gSeqRealSrand(s); }
+static char gDummyFile;
+static PlatformSpecificFile seqFOpen(const char*, const char*) { return (PlatformSpecificFile)&gDummyFile; }
+static void seqFClose(PlatformSpecificFile) {}
+static void seqFlush() {}
+static void seqFPuts(const char* s, PlatformSpecificFile f)
+{
+    if (f != PlatformSpecificStdOut) return;                      // a JUnit file: not kept
+    size_t n = strlen(s);
+    if (gConLen + n >= sizeof gCon) n = sizeof gCon - 1 - gConLen;   // cut: only "is it exactly / does it start with usage or help" is asked
+    memcpy(gCon + gConLen, s, n); gConLen += n; gCon[gConLen] = 0;
+}
+static void noCrash() {}
+class SeqTest : public Utest
+{
+public:
+    int id; explicit SeqTest(int i) : id(i) {}
+    void testBody() CPPUTEST_OVERRIDE { if (gRanN < MAXRAN) gRanIds[gRanN++] = id; if (gFailMask >> id & 1) FAIL("probe test fails"); }
+};
+class SeqShell : public UtestShell
+{
+public:
+    int id;
+    SeqShell(int i) : UtestShell(RPROBES[i].g, RPROBES[i].n, "probe.cpp", 1), id(i) {}
+    Utest* createTest() CPPUTEST_OVERRIDE { return new SeqTest(id); }
+    void setRunInSeperateProcess() CPPUTEST_OVERRIDE {}          // nothing forks
+};
+class IgnoredSeqShell : public IgnoredUtestShell
+{
+public:
+    int id;
+    IgnoredSeqShell(int i) : IgnoredUtestShell(RPROBES[i].g, RPROBES[i].n, "probe.cpp", 1), id(i) {}
+    Utest* createTest() CPPUTEST_OVERRIDE { return new SeqTest(id); }
+    void setRunInSeperateProcess() CPPUTEST_OVERRIDE {}
+};
+static const char* const PLUGIN_NAMES[5] = { DEF_PLUGIN_MEM_LEAK, DEF_PLUGIN_SET_POINTER, "ok", "other", "px" };
+class UserPlugin : public TestPlugin
+{
+public:
+    int kind;
+    UserPlugin(const char* name, int k) : TestPlugin(name), kind(k) {}
+    bool parseArguments(int, const char* const* av, int index) CPPUTEST_OVERRIDE
+    { return kind == 1 ? strncmp(av[index], "-pok", 4) == 0 : kind == 2 ? strncmp(av[index], "-px", 3) == 0 : false; }
+};
+// the link of a plugin that may already be destroyed (a runner's stack object left in the chain): a plain load, no sanitizer check
+// (called first thing after RunAllTests returns, with a small frame, so that the runner's dead frame is still as it was left)
+static TestPlugin* gChain[CHAIN_CAP];
+__attribute__((no_sanitize_undefined, no_sanitize_address, noinline)) static int walkChain(TestPlugin* p, TestPlugin* end)
+{
+    int cnt = 0;
+    for (; p != end && cnt < CHAIN_CAP; p = p->next_) gChain[cnt++] = p;
+    return cnt;
+}
+static void say(int fd, const std::string& s)
+{
+    size_t off = 0;
+    while (off < s.size()) { ssize_t w = write(fd, s.data() + off, s.size() - off); if (w <= 0) _exit(4); off += (size_t)w; }
+}
+
+static int seqChild(int fd, Toks& t)
+{
+    alarm(SEQ_ALARM);
+    {   // a sequence needs a few milliseconds of CPU; one that spins (a cyclic plugin chain) is stopped after 0.4 s of its own CPU time,
+        // whatever the load of the machine (50 ms once five children of this harness have been stopped that way, 20 ms after twenty:
+        // an implementation that never hangs always gets the 0.4 s)
+        struct itimerval it; memset(&it, 0, sizeof it);
+        it.it_value.tv_usec = gHangs >= 20 ? 20000 : gHangs >= 5 ? 50000 : 400000;
+        setitimer(ITIMER_PROF, &it, 0);
+    }
+    gTime = (unsigned long)t.u();
+    GetPlatformSpecificTimeInMillis = fakeTime;
+    size_t np = (size_t)t.u();
+    std::vector<UserPlugin*> users;
+    for (size_t i = 0; i < np; i++) { unsigned nm = (unsigned)t.u() % 5; int kind = (int)t.u(); users.push_back(new UserPlugin(PLUGIN_NAMES[nm], kind)); }
+    gFailMask = (unsigned)t.u();
+    size_t k = (size_t)t.u();
+    std::vector<std::vector<std::string> > vectors;
+    for (size_t c = 0; c < k; c++) {
+        size_t n = (size_t)t.u();
+        std::vector<std::string> v;
+        for (size_t i = 0; i < n; i++) { std::string s; t.bytes(s); v.push_back(s); }
+        vectors.push_back(v);
+    }
+    // the current registry: 18 probe tests in the normal order 0..17, the user's plugins (first of the scenario = head of the chain)
+    TestRegistry reg;
+    std::vector<UtestShell*> shells;
+    for (int i = 0; i < NRP; i++) shells.push_back(RPROBES[i].ign ? (UtestShell*)new IgnoredSeqShell(i) : (UtestShell*)new SeqShell(i));
+    for (int i = NRP - 1; i >= 0; i--) reg.addTest(shells[(size_t)i]);
+    for (size_t i = np; i-- > 0; ) reg.installPlugin(users[i]);
+    reg.setCurrentRegistry(&reg);
+    std::string usage, help;
+    { CommandLineArguments a(0, 0); usage = a.usage(); help = a.help(); }
+    gSeqRealSrand = PlatformSpecificSrand; PlatformSpecificSrand = countingSrand;
+    PlatformSpecificFPuts = seqFPuts; PlatformSpecificFOpen = seqFOpen; PlatformSpecificFClose = seqFClose; PlatformSpecificFlush = seqFlush;
+    UtestShell::setCrashMethod(noCrash);
+    for (size_t c = 0; c < k; c++) {
+        size_t n = vectors[c].size();
+        const char** av = exactArray(n);
+        for (size_t i = 0; i < n; i++) av[i] = exactCopy(vectors[c][i]);
+        bool big;
+        { CommandLineArguments pre((int)n, av); big = pre.parse(reg.getFirstPlugin()) && pre.getRepeatCount() > (size_t)REP_CAP; }
+        if (big) { say(fd, " :big"); }
+        else {
+            gConLen = 0; gCon[0] = 0; gRanN = 0; gSrandCalls = 0;
+            CommandLineTestRunner::RunAllTests((int)n, av);
+            int cnt = walkChain(reg.getFirstPlugin(), NullTestPlugin::instance());
+            std::string line = " :c ";
+            bool u = strncmp(gCon, usage.c_str(), usage.size()) == 0, h = strncmp(gCon, help.c_str(), help.size()) == 0;
+            line += (u && gConLen == usage.size()) ? "1" : (h && gConLen == help.size()) ? "2" : (u || h) ? "3" : "0";
+            line += " " + hx((unsigned)gSrandCalls) + " " + hx((unsigned)gRanN);
+            for (int i = 0; i < gRanN; i++) line += " " + hx((unsigned)gRanIds[i]);
+            std::string tags;
+            for (int j = 0; j < cnt; j++) {
+                size_t tag = 0;
+                for (size_t i = 0; i < np; i++) if (gChain[j] == users[i]) tag = i + 1;
+                tags += " " + hx(tag);
+            }
+            line += " " + hx((unsigned)cnt) + tags;
+            say(fd, line);
+        }
+        for (size_t i = 0; i < n; i++) release((void*)av[i]);
+        release((void*)av);
+    }
+    say(fd, " :end");
+    return 0;
+}
+
+static void runSequence(Out& o, Toks& t)
+{
+    int fds[2];
+    o << ":seq";
+    if (pipe(fds) != 0) { o << ":nopipe"; return; }
+    fflush(stdout);
+    pid_t pid = fork();
+    if (pid < 0) { o << ":nofork"; return; }
+    if (pid == 0) { close(fds[0]); _exit(seqChild(fds[1], t)); }
+    close(fds[1]);
+    std::string got; char buf[4096]; ssize_t n;
+    while ((n = read(fds[0], buf, sizeof buf)) > 0) got.append(buf, (size_t)n);
+    close(fds[0]);
+    int status = 0;
+    waitpid(pid, &status, 0);
+    bool clean = WIFEXITED(status) && WEXITSTATUS(status) == 0;
+    size_t cut = got.size();
+    if (!clean) { size_t e = got.find(" :end"); if (e != std::string::npos) cut = e; }      // every call record is one write: complete
+    std::string body = got.substr(0, cut);
+    if (!body.empty() && body[0] == ' ') body.erase(0, 1);
+    if (!body.empty()) o << body;
+    bool hung = WIFSIGNALED(status) && (WTERMSIG(status) == SIGALRM || WTERMSIG(status) == SIGPROF);
+    if (hung) gHangs++;
+    if (!clean) o << (hung ? ":hang" : ":died");
+}
+
 static const char* PROBES[14][2] = { {"grp", "name"}, {"grp", "name2"}, {"grp2", "name"}, {"Group", "Test"}, {"a", "b"}, {"ab", "ba"},
     {"x", "y"}, {"grp", "other"}, {"other", "name"}, {"g1", "t1"}, {"G", "T"}, {"mygrp", "myname"},
     {"aaab", "xababac"}, {"Looop", "TestTestTests"} };   // self-overlapping patterns: a match that starts inside a failed partial match
@@ -179,6 +357,7 @@ int main()
     Toks t; Out o;
     unsigned long (*savedTime)() = GetPlatformSpecificTimeInMillis;
     while (readline(t)) {
+        if (t.peek() == ":seq") { t.next(); runSequence(o, t); o.flush(); continue; }
         gTime = (unsigned long)t.u();
         size_t n = (size_t)t.u();
         const char** av = exactArray(n);
